@@ -26,6 +26,7 @@ The architecture here is briefly:
 
 import collections
 import os
+import pickle
 import sys
 import queue
 import subprocess
@@ -318,7 +319,12 @@ class CompiledSubprocess:
 
         try:
             is_exception, traceback, result = pickle_load(self._get_process().stdout)
-        except EOFError as eof_error:
+        except (EOFError, pickle.UnpicklingError) as eof_error:
+            if isinstance(eof_error, pickle.UnpicklingError):
+                # The reply ends in the middle of a pickle: the subprocess died
+                # while writing it. Make sure of that, the stream cannot be
+                # used anymore and reading stderr to its end must not block.
+                self._get_process().kill()
             try:
                 stderr = self._get_process().stderr.read().decode('utf-8', 'replace')
             except Exception as exc:
